@@ -18,16 +18,16 @@ import (
 )
 
 type EvalCtx struct {
-	fe      *FnExec
-	st      *State
-	old     *State
-	binds   map[string]Val
-	fr      *frame         // for locals by source name (nil when evaluating a callee contract at a call site)
-	pkg     *types.Package // scope for package-level names
-	conFile string
-	bound   map[string]Term // quantifier variables
+	fe       *FnExec
+	st       *State
+	old      *State
+	binds    map[string]Val
+	fr       *frame         // for locals by source name (nil when evaluating a callee contract at a call site)
+	pkg      *types.Package // scope for package-level names
+	conFile  string
+	bound    map[string]Term // quantifier variables
 	wantAddr bool
-	fr0     *frame
+	fr0      *frame
 	lazyFn   *ssa.Function  // closure whose locals / parameters are unknowns (last-call rule)
 	oldBinds map[string]Val // bindings used inside old(...) in that mode
 }
@@ -149,8 +149,14 @@ func (c *EvalCtx) eval(e ast.Expr) Val {
 				}
 			}
 		}
-		fe.eng.noteUFun("elemlen", 2)
 		i := fe.intTerm(c.eval(x.Index))
+		if sl, ok := base.(SliceV); ok && sl.ElemT != nil {
+			if _, isStruct := sl.ElemT.Underlying().(*types.Struct); isStruct {
+				fe.eng.noteUFun("elemaddr", 2)
+				return fe.loadHeap(c.st, typeName(sl.ElemT), sx("elemaddr", sl.Ref, i), sl.ElemT)
+			}
+		}
+		fe.eng.noteUFun("elemlen", 2)
 		// abstract element: only its length is known
 		return SliceV{Ref: sx(sym("elemref"), termOf(base), i), Len: sx(sym("elemlen"), termOf(base), i), Cap: sx(sym("elemlen"), termOf(base), i)}
 	}
@@ -546,7 +552,14 @@ func (c *EvalCtx) evalCall(x *ast.CallExpr) Val {
 				}
 			}
 		}
-		return c.fail("athead(%d, ...): no such loop head state", k)
+		if c.fr != nil {
+			for _, li := range c.fr.loops {
+				if li.ord == k {
+					return c.eval(args[1]) // the loop has not been reached on this path: current state
+				}
+			}
+		}
+		return c.fail("athead(%d, ...): no such loop", k)
 	case "len":
 		return IntV{fe.lenOf(c.eval(args[0]))}
 	case "cap":
